@@ -35,9 +35,26 @@ def generate(master, index, tier):
     p_foreign = rng.choice((0.0, 0.2, 0.4))
     p_dmg = rng.choice((0.1, 0.3, 0.5, 0.9, 1.0))
     items = []
+    p_copy = rng.choice((0.0, 0.0, 0.2, 0.5))
     for _ in range(n):
         r = rng.random()
-        if r < p_foreign / 2:
+        prev = [it for it in items if it[0] == "frame"]
+        if prev and rng.random() < p_copy:
+            # an earlier good frame again: verbatim, or damaged in payload only / CRC only
+            src = prev[-1] if rng.random() < 0.5 else rng.choice(prev)
+            if rng.random() < 0.3:
+                items.append([src[0], src[1], src[2]])
+            else:
+                raw = bytes.fromhex(src[1])
+                nb = len(raw) * 8
+                if rng.random() < 0.5 and nb > 48:
+                    dmg = wire.flip_bits(raw, sorted({rng.randrange(24, nb - 24) for _ in range(rng.choice((1, 2, 3)))}))
+                    tag = "copy:payload"
+                else:
+                    dmg = wire.flip_bits(raw, sorted({rng.randrange(nb - 24, nb) for _ in range(rng.choice((1, 2, 3)))}))
+                    tag = "copy:crc"
+                items.append(["dmg", dmg.hex(), tag + "/" + src[2]])
+        elif r < p_foreign / 2:
             items.append(W.gen_nmea(rng))
         elif r < p_foreign:
             items.append(W.gen_ubx(rng))
@@ -47,6 +64,14 @@ def generate(master, index, tier):
                 dmg, tag = W.damage_detectable(rng, bytes.fromhex(it[1]))
                 it = ["dmg", dmg.hex(), tag + "/" + it[2]]
             items.append(it)
+    if index % 50 == 7:
+        # deep damage history: > 1000 consecutive damaged frames, then a good one
+        f = wire.rtcm_frame(wire.rtcm_payload(rng.choice((1005, 999, 1077)), rng.getrandbits(40), rng.choice((2, 5, 8))))
+        items = []
+        for _ in range(rng.choice((300, 1100, 1600))):
+            dmg, tag = W.damage_detectable(rng, f)
+            items.append(["dmg", dmg.hex(), tag + "/long"])
+        items.append(W.gen_frame(rng))
     mode = rng.choice(("ignore", "log+handler", "log+handler", "log", "raise", "raise"))
     q = {"ignore": 0, "log+handler": 1, "log": 1, "raise": 2}[mode]
     return {
